@@ -1693,18 +1693,22 @@ let unres d = function
 type arith = { of_int : (Big_int_Z.big_int -> __); add0 : (__ -> __ -> __);
                sub0 : (__ -> __ -> __); mulv : (__ -> __ -> __);
                divv : (__ -> __ -> __ res); floordivv : (__ -> __ -> __ res);
-               kmul : (__ -> __ -> rnd -> __);
-               kdiv : (__ -> __ -> rnd -> __ res);
-               kmuldiv : (__ -> __ -> __ -> rnd -> __ res);
+               kmul : (__ -> __ -> bool -> __);
+               kdiv : (__ -> __ -> bool -> __ res);
+               kmuldiv : (__ -> __ -> __ -> bool -> __ res);
                eqv : (__ -> __ -> bool); ltv : (__ -> __ -> bool);
                lev : (__ -> __ -> bool); gtv : (__ -> __ -> bool);
                gev : (__ -> __ -> bool); truth : (__ -> bool);
-               vmin : (__ list -> __ res); epsilon : __; exact : bool;
-               aname : string; ainfo : string; str : (__ -> string);
-               raw_repr : (__ -> string);
-               areport : (string -> string -> string) }
+               vmin : (__ -> __ list -> __); epsilon : __; exact : bool;
+               str : (__ -> string); raw_repr : (__ -> string) }
 
 type t = __
+
+(** val rnd_of : bool -> rnd **)
+
+let rnd_of = function
+| true -> RUp
+| false -> RDown
 
 (** val nev : arith -> t -> t -> bool **)
 
@@ -1745,18 +1749,6 @@ let fixed_str st v =
   | Ok f -> render_fmt st.f_display Big_int_Z.zero_big_int f
   | Raise _ -> "<exception>"
 
-(** val fixed_info : Big_int_Z.big_int -> Big_int_Z.big_int -> string **)
-
-let fixed_info p d =
-  if Z.eqb p Big_int_Z.zero_big_int
-  then "integer arithmetic"
-  else if negb (Z.eqb d p)
-       then (^) "fixed-point decimal arithmetic ("
-              ((^) (string_of_Z p)
-                ((^) " places, " ((^) (string_of_Z d) " displayed)")))
-       else (^) "fixed-point decimal arithmetic ("
-              ((^) (string_of_Z p) " places)")
-
 (** val fixed : Big_int_Z.big_int -> Big_int_Z.big_int -> arith **)
 
 let fixed p d =
@@ -1771,14 +1763,14 @@ let fixed p d =
     (Obj.magic dunder_mul st a (OVal (Obj.magic b)))); divv = (fun a b ->
   Obj.magic dunder_truediv st a (OVal (Obj.magic b))); floordivv =
   (fun a b -> Obj.magic dunder_floordiv st a (OVal (Obj.magic b))); kmul =
-  (fun a b r ->
+  (fun a b up ->
   unres (Obj.magic Big_int_Z.zero_big_int)
-    (Obj.magic mul0 st (OVal (Obj.magic a)) (OVal (Obj.magic b)) r)); kdiv =
-  (fun a b r ->
-  Obj.magic div0 st (OVal (Obj.magic a)) (OVal (Obj.magic b)) r); kmuldiv =
-  (fun a b c r ->
+    (Obj.magic mul0 st (OVal (Obj.magic a)) (OVal (Obj.magic b)) (rnd_of up)));
+  kdiv = (fun a b up ->
+  Obj.magic div0 st (OVal (Obj.magic a)) (OVal (Obj.magic b)) (rnd_of up));
+  kmuldiv = (fun a b c up ->
   Obj.magic muldiv st (OVal (Obj.magic a)) (OVal (Obj.magic b)) (OVal
-    (Obj.magic c)) r); eqv = (fun a b ->
+    (Obj.magic c)) (rnd_of up)); eqv = (fun a b ->
   res_true (dunder_eq st (Obj.magic a) (OVal (Obj.magic b)))); ltv =
   (fun a b -> res_true (dunder_lt st (Obj.magic a) (OVal (Obj.magic b))));
   lev = (fun a b ->
@@ -1786,12 +1778,10 @@ let fixed p d =
   (fun a b -> res_true (dunder_gt st (Obj.magic a) (OVal (Obj.magic b))));
   gev = (fun a b ->
   res_true (dunder_ge st (Obj.magic a) (OVal (Obj.magic b)))); truth =
-  (fun a -> res_true (dunder_bool st (Obj.magic a))); vmin =
-  (Obj.magic min st); epsilon = (Obj.magic Big_int_Z.unit_big_int); exact =
-  false; aname =
-  (if Z.eqb p Big_int_Z.zero_big_int then "integer" else "fixed"); ainfo =
-  (fixed_info p (fixed_display p d)); str = (Obj.magic fixed_str st);
-  raw_repr = (Obj.magic string_of_Z); areport = (fun _ _ -> "") }
+  (fun a -> res_true (dunder_bool st (Obj.magic a))); vmin = (fun x l ->
+  unres x (Obj.magic min st ((Obj.magic x) :: (Obj.magic l)))); epsilon =
+  (Obj.magic Big_int_Z.unit_big_int); exact = false; str =
+  (Obj.magic fixed_str st); raw_repr = (Obj.magic string_of_Z) }
 
 (** val mk_guarded_cls :
     Big_int_Z.big_int -> Big_int_Z.big_int -> Big_int_Z.big_int ->
@@ -1849,61 +1839,6 @@ let guarded_str st v =
     else render_fmt st.g_precision (Z.sub st.g_display st.g_precision) f
   | Raise _ -> "<exception>"
 
-(** val guarded_info :
-    Big_int_Z.big_int -> Big_int_Z.big_int -> Big_int_Z.big_int -> string **)
-
-let guarded_info p g d =
-  if negb (Z.eqb d p)
-  then (^) "guarded-precision fixed-point decimal arithmetic ("
-         ((^) (string_of_Z p)
-           ((^) "+"
-             ((^) (string_of_Z g)
-               ((^) " places; " ((^) (string_of_Z d) " displayed)")))))
-  else (^) "guarded-precision fixed-point decimal arithmetic ("
-         ((^) (string_of_Z p) ((^) "+" ((^) (string_of_Z g) " places)")))
-
-(** val tab : string **)
-
-let tab =
-  (* If this appears, you're using String internals. Please don't *)
-  (fun (c, s) -> String.make 1 c ^ s)
-
-    ((ascii_of_nat (S (S (S (S (S (S (S (S (S O)))))))))), "")
-
-(** val nl : string **)
-
-let nl =
-  (* If this appears, you're using String internals. Please don't *)
-  (fun (c, s) -> String.make 1 c ^ s)
-
-    ((ascii_of_nat (S (S (S (S (S (S (S (S (S (S O))))))))))), "")
-
-(** val guarded_report : guarded_cls -> string -> string -> string **)
-
-let guarded_report st maxd mind =
-  (^) tab
-    ((^) "maxDiff: "
-      ((^) maxd
-        ((^) "  (s/b << geps)"
-          ((^) nl
-            ((^) tab
-              ((^) "geps:    "
-                ((^) (string_of_Z st.g_geps)
-                  ((^) nl
-                    ((^) tab
-                      ((^) "minDiff: "
-                        ((^) mind
-                          ((^) "  (s/b >> geps)"
-                            ((^) nl
-                              ((^) tab
-                                ((^) "guard:   "
-                                  ((^) (string_of_Z st.g_scaleg)
-                                    ((^) nl
-                                      ((^) tab
-                                        ((^) "prec:    "
-                                          ((^) (string_of_Z st.g_scale)
-                                            ((^) nl nl)))))))))))))))))))))
-
 (** val guarded :
     Big_int_Z.big_int -> Big_int_Z.big_int -> Big_int_Z.big_int ->
     Big_int_Z.big_int -> arith **)
@@ -1920,14 +1855,14 @@ let guarded p g d stale =
     (Obj.magic dunder_mul0 st a (OVal (Obj.magic b)))); divv = (fun a b ->
   Obj.magic dunder_truediv0 st a (OVal (Obj.magic b))); floordivv =
   (fun a b -> Obj.magic dunder_floordiv0 st a (OVal (Obj.magic b))); kmul =
-  (fun a b r ->
+  (fun a b up ->
   unres (Obj.magic Big_int_Z.zero_big_int)
-    (Obj.magic mul1 st (OVal (Obj.magic a)) (OVal (Obj.magic b)) r)); kdiv =
-  (fun a b r ->
-  Obj.magic div1 st (OVal (Obj.magic a)) (OVal (Obj.magic b)) r); kmuldiv =
-  (fun a b c r ->
+    (Obj.magic mul1 st (OVal (Obj.magic a)) (OVal (Obj.magic b)) (rnd_of up)));
+  kdiv = (fun a b up ->
+  Obj.magic div1 st (OVal (Obj.magic a)) (OVal (Obj.magic b)) (rnd_of up));
+  kmuldiv = (fun a b c up ->
   Obj.magic muldiv0 st (OVal (Obj.magic a)) (OVal (Obj.magic b)) (OVal
-    (Obj.magic c)) r); eqv = (fun a b ->
+    (Obj.magic c)) (rnd_of up)); eqv = (fun a b ->
   res_true (dunder_eq0 st (Obj.magic a) (OVal (Obj.magic b)))); ltv =
   (fun a b -> res_true (dunder_lt0 st (Obj.magic a) (OVal (Obj.magic b))));
   lev = (fun a b ->
@@ -1935,11 +1870,11 @@ let guarded p g d stale =
   (fun a b -> res_true (dunder_gt0 st (Obj.magic a) (OVal (Obj.magic b))));
   gev = (fun a b ->
   res_true (dunder_ge0 st (Obj.magic a) (OVal (Obj.magic b)))); truth =
-  (fun a -> res_true (dunder_bool0 st (Obj.magic a))); vmin =
-  (Obj.magic min0 st); epsilon = (Obj.magic Big_int_Z.unit_big_int); exact =
-  (negb (Z.eqb g Big_int_Z.zero_big_int)); aname = "guarded"; ainfo =
-  (guarded_info p g st.g_display); str = (Obj.magic guarded_str st);
-  raw_repr = (Obj.magic string_of_Z); areport = (guarded_report st) }
+  (fun a -> res_true (dunder_bool0 st (Obj.magic a))); vmin = (fun x l ->
+  unres x (Obj.magic min0 st ((Obj.magic x) :: (Obj.magic l)))); epsilon =
+  (Obj.magic Big_int_Z.unit_big_int); exact =
+  (negb (Z.eqb g Big_int_Z.zero_big_int)); str = (Obj.magic guarded_str st);
+  raw_repr = (Obj.magic string_of_Z) }
 
 (** val qz : q -> bool **)
 
@@ -2016,14 +1951,13 @@ let rational dp =
     (Obj.magic qeq_bool); ltv = (Obj.magic q_lt); lev = (Obj.magic q_le);
     gtv = (fun a b -> q_lt (Obj.magic b) (Obj.magic a)); gev = (fun a b ->
     q_le (Obj.magic b) (Obj.magic a)); truth = (fun a ->
-    negb (qz (Obj.magic a))); vmin = (py_min_by (Obj.magic q_lt)); epsilon =
+    negb (qz (Obj.magic a))); vmin = (fun x l ->
+    unres x (py_min_by (Obj.magic q_lt) (x :: l))); epsilon =
     (Obj.magic { qnum = Big_int_Z.zero_big_int; qden =
-      Big_int_Z.unit_big_int }); exact = true; aname = "rational"; ainfo =
-    "rational arithmetic"; str = (Obj.magic rational_str dp); raw_repr =
-    (fun q0 ->
+      Big_int_Z.unit_big_int }); exact = true; str =
+    (Obj.magic rational_str dp); raw_repr = (fun q0 ->
     let r = qred (Obj.magic q0) in
-    (^) (string_of_Z r.qnum) ((^) "/" (string_of_Z r.qden))); areport =
-    (fun _ _ -> "") }
+    (^) (string_of_Z r.qnum) ((^) "/" (string_of_Z r.qden))) }
 
 (** val run_asc : ('a1 -> 'a1 -> bool) -> 'a1 -> 'a1 list -> nat **)
 
@@ -2850,7 +2784,7 @@ let rew_wigm a w surp v =
 (** val rew_scot : arith -> t -> t -> t -> t res **)
 
 let rew_scot a w surp v =
-  a.kmuldiv w surp v RDown
+  a.kmuldiv w surp v false
 
 (** val initial_count : arith -> est -> est **)
 
@@ -3725,7 +3659,7 @@ let kw_warren a kf w =
 
 let kw_meek a =
   let v2 = v1 a in
-  (fun kf w -> ((a.kmul w kf RDown), (a.kmul w (a.sub0 v2 kf) RDown)))
+  (fun kf w -> ((a.kmul w kf false), (a.kmul w (a.sub0 v2 kf) false)))
 
 (** val kt : arith -> config -> t -> t -> t * t **)
 
@@ -3853,7 +3787,7 @@ let update_kfs a s =
   fold_left (fun s0 c ->
     if crashed a s0
     then s0
-    else (match a.kdiv (a.kmul (kf_of a c) s0.quota RUp) c.cvote RUp with
+    else (match a.kdiv (a.kmul (kf_of a c) s0.quota true) c.cvote true with
           | Ok k -> upd a s0 c.cid (fun c0 -> with_kf a c0 (Some k))
           | Raise e -> set_crash a s0 e)) (electeds a s) s
 
@@ -3926,10 +3860,11 @@ let meek_defeat_batch a cfg s =
 (** val low_within_surplus : arith -> est -> cand list res **)
 
 let low_within_surplus a s =
-  match a.vmin (map (fun c -> c.cvote) (hopefuls a s)) with
-  | Ok lv ->
+  match map (fun c -> c.cvote) (hopefuls a s) with
+  | [] -> Raise ValueError
+  | x :: l ->
+    let lv = a.vmin x l in
     Ok (filter (fun c -> a.gev (a.add0 lv s.surplus) c.cvote) (hopefuls a s))
-  | Raise e -> Raise e
 
 (** val meek_defeat_low :
     arith -> config -> (string -> string -> string) -> bool -> est -> est **)
@@ -4042,7 +3977,7 @@ let dist_ballot_prf a =
       (match find_cand a cs i with
        | Some c ->
          if kf_truthy a c
-         then let kw = a.kmul w (kf_of a c) RUp in
+         then let kw = a.kmul w (kf_of a c) true in
               let kv = a.mulv kw mult in
               let cs' =
                 upd_cand a i (fun c0 -> with_vote a c0 (a.add0 c0.cvote kv))
@@ -4939,7 +4874,6 @@ let run_rational dp op rn an ad bn bd cn cd =
   let a = mkq an ad in
   let b = mkq bn bd in
   let c = mkq cn cd in
-  let r0 = mk_rnd rn in
   ((fun fO fp fn z -> let s = Big_int_Z.sign_big_int z in
   if s = 0 then fO () else if s > 0 then fp z
   else fn (Big_int_Z.minus_big_int z))
@@ -4975,7 +4909,9 @@ let run_rational dp op rn an ad bn bd cn cd =
   if Big_int_Z.eq_big_int r Big_int_Z.zero_big_int then f2p q else f2p1 q)
              (fun _ -> "badop")
              (fun _ -> "badop")
-             (fun _ -> show_resQ (Obj.magic r.kdiv a b r0))
+             (fun _ ->
+             show_resQ
+               (Obj.magic r.kdiv a b (Z.eqb rn Big_int_Z.unit_big_int)))
              p2)
            (fun _ -> (^) "ok " (show_q (Obj.magic r.mulv a b)))
            p1)
@@ -5056,7 +4992,10 @@ let run_rational dp op rn an ad bn bd cn cd =
                (fun _ -> "badop")
                (fun _ -> showb (r.gev (Obj.magic a) (Obj.magic b)))
                p3)
-             (fun _ -> (^) "ok " (show_q (Obj.magic r.kmul a b r0)))
+             (fun _ ->
+             (^) "ok "
+               (show_q
+                 (Obj.magic r.kmul a b (Z.eqb rn Big_int_Z.unit_big_int))))
              p2)
            (fun _ -> showb (r.truth (Obj.magic a)))
            p1)
@@ -5072,7 +5011,9 @@ let run_rational dp op rn an ad bn bd cn cd =
   if Big_int_Z.eq_big_int r Big_int_Z.zero_big_int then f2p q else f2p1 q)
              (fun _ -> "badop")
              (fun _ -> "badop")
-             (fun _ -> show_resQ (Obj.magic r.kmuldiv a b c r0))
+             (fun _ ->
+             show_resQ
+               (Obj.magic r.kmuldiv a b c (Z.eqb rn Big_int_Z.unit_big_int)))
              p2)
            (fun p2 ->
            (fun f2p1 f2p f1 p ->
